@@ -709,16 +709,34 @@ func (vb *viewBuilder) threadBoolPhis() {
 	for changed := true; changed; {
 		changed = false
 		for _, x := range f.Blocks {
-			if len(x.Instrs) != 2 || x == f.Blocks[0] || x == f.Recover {
+			if (len(x.Instrs) != 2 && len(x.Instrs) != 3) || x == f.Blocks[0] || x == f.Recover {
 				continue
 			}
 			phi, ok := x.Instrs[0].(*ssa.Phi)
 			if !ok {
 				continue
 			}
-			iff, ok := x.Instrs[1].(*ssa.If)
-			if !ok || iff.Cond != ssa.Value(phi) || x.Succs[0] == x.Succs[1] {
+			iff, ok := x.Instrs[len(x.Instrs)-1].(*ssa.If)
+			if !ok || x.Succs[0] == x.Succs[1] {
 				continue
+			}
+			// `if phi` or `t = !phi; if t`
+			negated := false
+			var notInstr *ssa.UnOp
+			if len(x.Instrs) == 2 {
+				if iff.Cond != ssa.Value(phi) {
+					continue
+				}
+			} else {
+				u, isU := x.Instrs[1].(*ssa.UnOp)
+				if !isU || u.Op != token.NOT || u.X != ssa.Value(phi) || iff.Cond != ssa.Value(u) {
+					continue
+				}
+				negated, notInstr = true, u
+			}
+			succT, succF := x.Succs[0], x.Succs[1]
+			if negated {
+				succT, succF = succF, succT
 			}
 			// the phi must have no other use
 			uses := 0
@@ -731,6 +749,23 @@ func (vb *viewBuilder) threadBoolPhis() {
 							uses++
 						}
 					}
+				}
+			}
+			if notInstr != nil {
+				// the negation must feed only the If
+				nu := 0
+				for _, b := range f.Blocks {
+					for _, in := range b.Instrs {
+						rands = in.Operands(rands[:0])
+						for _, r := range rands {
+							if *r == ssa.Value(notInstr) {
+								nu++
+							}
+						}
+					}
+				}
+				if nu != 1 {
+					continue
 				}
 			}
 			if uses != 1 || len(x.Preds) != len(phi.Edges) {
@@ -770,9 +805,9 @@ func (vb *viewBuilder) threadBoolPhis() {
 					if !isB {
 						continue
 					}
-					t := x.Succs[1]
+					t := succF
 					if bv {
-						t = x.Succs[0]
+						t = succT
 					}
 					for si, s := range q.Succs {
 						if s == x {
@@ -789,14 +824,14 @@ func (vb *viewBuilder) threadBoolPhis() {
 				vb.origin[ni] = vb.origin[iff]
 				nb.Instrs = []ssa.Instruction{ni}
 				nb.Preds = []*ssa.BasicBlock{q}
-				nb.Succs = []*ssa.BasicBlock{x.Succs[0], x.Succs[1]}
+				nb.Succs = []*ssa.BasicBlock{succT, succF}
 				for si, s := range q.Succs {
 					if s == x {
 						q.Succs[si] = nb
 					}
 				}
-				addPred(x.Succs[0], nb)
-				addPred(x.Succs[1], nb)
+				addPred(succT, nb)
+				addPred(succF, nb)
 				// keep block order: right after x
 				var nbs []*ssa.BasicBlock
 				for _, y := range f.Blocks {
@@ -859,10 +894,16 @@ func (vb *viewBuilder) finish() error {
 	f := vb.nf
 	vb.removeUnreachable()
 	vb.promoteSpills()
-	vb.simplifyPhis()
-	vb.threadBoolPhis()
-	vb.simplifyPhis()
-	vb.fuseJumps()
+	for round := 0; round < 4; round++ {
+		before := len(f.Blocks)
+		vb.simplifyPhis()
+		vb.threadBoolPhis()
+		vb.simplifyPhis()
+		vb.fuseJumps()
+		if len(f.Blocks) == before {
+			break
+		}
+	}
 	for i, b := range f.Blocks {
 		b.Index = i
 	}
@@ -932,12 +973,14 @@ func (p *Prog) View(fn *ssa.Function, keepKey string, keep func(*ssa.Function) b
 	if fn == nil || fn.Blocks == nil {
 		return fn
 	}
-	viewMu.Lock()
-	defer viewMu.Unlock()
 	k := viewKey{fn, p.Spec.Name + "/" + keepKey}
+	viewMu.Lock()
 	if v, ok := viewCache[k]; ok {
+		viewMu.Unlock()
 		return v
 	}
+	viewMu.Unlock()
+	// built outside the lock: keep predicates may themselves ask for views
 	nf := new(ssa.Function)
 	*nf = *fn
 	vb := &viewBuilder{p: p, root: fn, nf: nf, keep: keep, depth: map[ssa.Instruction]int{}, stack: map[ssa.Instruction][]*ssa.Function{},
@@ -1002,8 +1045,10 @@ func (p *Prog) View(fn *ssa.Function, keepKey string, keep func(*ssa.Function) b
 		names = append(names, FnName(g))
 	}
 	sort.Strings(names)
+	viewMu.Lock()
 	viewCache[k] = nf
 	viewInfo[nf] = &viewMeta{root: fn, inlined: names, origin: vb.origin}
+	viewMu.Unlock()
 	return nf
 }
 
